@@ -6,11 +6,11 @@ CONSTANTS
   P2 = "parentId"
   MapOrder <- MapOrderDef
   TraceOrders <- TraceOrdersBig
-  ParentOrders <- ParentOrdersBig
-  Orders <- OrdersMid
-  SeqPaths = {"msgp", "jsonbatch", "umsg"}
+  ParentOrders <- ParentOrdersQuick
+  Orders <- OrdersQuick
+  SeqPaths = {"msgp"}
   MapPaths = {"map", "json"}
-  PTypings = {"absent", "str", "empty", "nonstr"}
+  PTypings = {"absent", "str", "empty"}
   STypings = {"absent", "log", "trace", "empty", "nonstr"}
   Faithful = TRUE
 CHECK_DEADLOCK FALSE
